@@ -455,8 +455,23 @@ def case_composed_cov(B, cfg):
     B.eq_array('composed (covariates): individual parameters', psi, psi_ref)
 
 
+def case_covariate(B, cfg):
+    """covariate-dependent models against the underlying model evaluated
+    individual by individual (the case of C07): upstream sensitivities
+    through a wrapped model without bottom-level parameters included"""
+    from . import c07
+    return c07.case_cov(B, cfg)
+
+
 def jobs(tier):
     out = []
+    for kind, nd, nc in (('pooled', 2, 1), ('pooled', 2, 2),
+                         ('pooled', 1, 2), ('gaussian_nc', 2, 1),
+                         ('lognormal', 2, 2)) + (
+            () if tier == 'quick' else (('pooled', 3, 1), ('pooled', 3, 2))):
+        out.append(('covariate', 'case_covariate', dict(
+            kind=kind, n_dim=nd, n_cov=nc, n_ids=2 if nd < 3 else 3),
+            {'terms_labels': r'^sample\['}))
     for kinds, covs in ((('gaussian', 'lognormal'), (1, 1)),
                         (('gaussian', 'gaussian_nc', 'pooled'), (2, 1, 0)),
                         (('pooled', 'lognormal_nc'), (1, 2)),
